@@ -22,6 +22,11 @@ class C02World(E2EWorld):
 
     def check(self, st, ev, obs):
         v = []
+        if "shell" in obs and not obs.get("pdu", "").startswith("FIN"):
+            # on a fault-free link the only PDU that may reach an entity after it closed the transaction is the
+            # Finished PDU of an acknowledged metadata-only transfer without closure (answered by the shell)
+            v.append(Violation(P, "C02.stray_pdu", f"{ev}: PDU {obs.get('pdu')} arrived for a transaction the addressed entity had already closed "
+                                                    f"(fault-free link: the sender emitted a PDU that does not belong to the transfer)", pdu=obs.get("pdu", "?")[:3]))
         for who in ("S", "D"):
             o = obs.get(who)
             if not o:
@@ -91,6 +96,9 @@ def configs(tier: str):
     for (mode, closure), (m2, c2), size in itertools.product((("ack", False), ("unack", True), ("unack", False)),
                                                              (("ack", False), ("unack", True), ("unack", False)), (0, L + 1)):
         add(mode=mode, closure=closure, size=size, tx2=dict(req_mode=m2, req_closure=c2))
+    for (mode, closure), size in itertools.product((("ack", False), ("unack", True), ("unack", False)), (0, L + 1)):
+        add(mode=mode, closure=closure, size=size, tx2=dict(md_only=True))
+        add(mode=mode, closure=closure, size=size, md_only=True, tx2=dict(md_only=False))
     # zero-filled content
     for mode in ("ack", "unack"):
         add(mode=mode, closure=True, size=L + 1, zero=True)
